@@ -29,6 +29,7 @@ sets = [
     ("C13", lambda: prolog.replay_term_order([])),
     ("C13atoms", lambda: prolog.replay_atom_order([])),
     ("C21", lambda: prolog.replay_atom_identity([])),
+    ("C06order", lambda: prolog.replay_clause_order([])),
 ]
 only = sys.argv[1:]
 bad = 0
